@@ -164,13 +164,13 @@ theorem exchangeCall_spec (cfg : Cfg) (w : World) (cur : Cursor) (req : Req) :
     ((∃ e, (exchangeCall cfg w cur req).1 = errResp 200 true e ∧ (exchangeCall cfg w cur req).2.1 = w) ∨
      (∃ pre vs md post,
         (exchangeCall cfg w cur req).1 = Resp.mk 200 false
-          (pre.map toR ++ RBatch.data vs (mergeToken (.cursor w.minted.length) md) :: post.map toR) ∧
+          (pre.map toR ++ RBatch.data vs (mergeToken (.cursor w.minted.length) md) :: post.map toR) [] ∧
         AllLog pre ∧ AllLog post ∧
         (exchangeCall cfg w cur req).2.1 = { w with minted := w.minted ++ [advance cur (cur.st.pos + 1)] })) := by
   unfold exchangeCall
   simp only []
-  have hinv := runActs_inv req.vals ((tickAt cur.st).getD defaultExchangeTick) (Coll.new false) (collInv_new false)
-  rcases hr : runActs req.vals (Coll.new false) ((tickAt cur.st).getD defaultExchangeTick) with ⟨c, e⟩
+  have hinv := runActs_inv req.vals (turnTick cur req) (Coll.new false) (collInv_new false)
+  rcases hr : runActs req.vals (Coll.new false) (turnTick cur req) with ⟨c, e⟩
   rw [hr] at hinv
   cases e with
   | some err => exact ⟨rfl, Or.inl ⟨err, rfl, rfl⟩⟩
@@ -290,44 +290,59 @@ theorem resolveCall_world {cfg : Cfg} {w : World} {inst : Nat} {cur : Cursor} {c
       · cases h
     · cases h
 
-/-- The dispatch of `handleStreamExchange`: a request is either refused with a 400 before anything
-runs (world untouched, no handler call), or its first `MetaStreamState` value opens to a minted
-cursor of the method the URL names and exactly one of cancel / producer continuation / exchange
-turn runs on it. -/
+/-- The dispatch of `handleStreamExchange`: a request is either refused with a 400 before any
+handler runs (no cursor minted, no handler call), or its first `MetaStreamState` value opens to a
+minted cursor of the method the URL names and exactly one of cancel / producer continuation /
+exchange turn runs on it. -/
 theorem handleExchange_cases (cfg : Cfg) (w : World) (req : Req) :
-    (∃ e, handleExchange cfg w req = (errResp 400 false e, w, [])) ∨
+    (∃ e w0, handleExchange cfg w req = (errResp 400 false e, w0, []) ∧ w0.minted = w.minted ∧ w0.calls = w.calls) ∨
     (∃ tv cur w1, getFirst keyState req.md = some tv ∧ openCursor w tv = some cur ∧
-       cur.st.producer = req.routeProducer ∧
+       cur.st.producer = req.routeProducer ∧ cur.dyn = req.dynamic ∧
        w1.minted = w.minted ∧ w1.calls = w.calls ∧
        (((getFirst keyCancel req.md).isSome = true ∧ handleExchange cfg w req = cancelTurn w1 cur) ∨
         ((getFirst keyCancel req.md).isSome = false ∧ req.routeProducer = true ∧
           handleExchange cfg w req = producerContinuation cfg w1 cur req) ∨
         ((getFirst keyCancel req.md).isSome = false ∧ req.routeProducer = false ∧
-          req.schemaOk = true ∧ handleExchange cfg w req = exchangeCall cfg w1 cur req))) := by
+          (req.exact = true ∨ cur.declared = false ∨ req.schemaOk = true) ∧
+          handleExchange cfg w req = exchangeCall cfg w1 cur req))) := by
   unfold handleExchange
   simp only []
   split
-  · exact Or.inl ⟨_, rfl⟩
+  · exact Or.inl ⟨_, w, rfl, rfl, rfl⟩
   · rename_i hcast
     cases ht : getFirst keyState req.md with
-    | none => exact Or.inl ⟨_, rfl⟩
+    | none => exact Or.inl ⟨_, w, rfl, rfl, rfl⟩
     | some tv =>
       simp only []
       cases ho : openCursor w tv with
-      | none => exact Or.inl ⟨_, rfl⟩
+      | none => exact Or.inl ⟨_, w, rfl, rfl, rfl⟩
       | some cur =>
         simp only []
         split
-        · exact Or.inl ⟨_, rfl⟩
+        · exact Or.inl ⟨_, w, rfl, rfl, rfl⟩
         · rename_i hkind
           cases hr : resolveCall cfg w req.inst cur (getFirst keyCall req.md) with
-          | error e => exact Or.inl ⟨_, rfl⟩
+          | error e => exact Or.inl ⟨_, w, rfl, rfl, rfl⟩
           | ok w1 =>
             simp only []
             obtain ⟨hm, hcl⟩ := resolveCall_world hr
-            refine Or.inr ⟨tv, cur, w1, rfl, ho, ?_, hm, hcl, ?_⟩
-            · cases hrp : req.routeProducer <;> cases hp : cur.st.producer <;> simp_all
-            · cases hc : (getFirst keyCancel req.md).isSome <;> cases hrp : req.routeProducer <;>
-                cases hs : req.schemaOk <;> simp_all
+            have hk1 : cur.st.producer = req.routeProducer := by
+              cases hrp : req.routeProducer <;> cases hp : cur.st.producer <;> simp_all
+            have hk2 : cur.dyn = req.dynamic := by
+              cases hrp : req.dynamic <;> cases hp : cur.dyn <;> simp_all
+            cases hc : (getFirst keyCancel req.md).isSome with
+            | true => exact Or.inr ⟨tv, cur, w1, rfl, ho, hk1, hk2, hm, hcl, Or.inl ⟨rfl, by simp⟩⟩
+            | false =>
+              by_cases hrp : req.routeProducer = true
+              · refine Or.inr ⟨tv, cur, w1, rfl, ho, hk1, hk2, hm, hcl, Or.inr (Or.inl ⟨rfl, hrp, ?_⟩)⟩
+                simp [hrp]
+              · have hrp' : req.routeProducer = false := by simpa using hrp
+                by_cases hdc : (req.dynamic && cur.declared && !req.exact && !req.schemaOk) = true
+                · refine Or.inl ⟨Err.cast, w1, ?_, hm, hcl⟩
+                  simp [hrp', hdc]
+                · refine Or.inr ⟨tv, cur, w1, rfl, ho, hk1, hk2, hm, hcl, Or.inr (Or.inr ⟨rfl, hrp', ?_, ?_⟩)⟩
+                  · cases he : req.exact <;> cases hd : cur.declared <;> cases hs : req.schemaOk <;>
+                      cases hdy : req.dynamic <;> simp_all
+                  · simp [hrp', hdc]
 
 end Vgi.HttpStream
